@@ -27,7 +27,7 @@ def cli_convert(sgy, out, q, bs, reduce_iops):
 
 def one_case(ctx, rng, k, model):
     klass = ['default', 'b0is4', 'zslice', 'general', None, 'default', 'b0is4'][k % 7]
-    n, bs, q = gen.geometry_3d(rng, klass=klass, max_voxels=60_000 if ctx.quick else 250_000)
+    n, bs, q = gen.geometry_3d(rng, klass=klass, max_voxels=ctx.n(60_000, 250_000))
     n = tuple(max(v, 2) for v in n)
     route = ['numpy', 'segy', 'segy-ri', 'numpy', 'cli', 'segy-ri', 'segy', 'cli-ri'][k % 8]
     arr = gen.cube(rng, n)
@@ -117,7 +117,7 @@ def run(ctx):
     model = core.Model()
     rng = gen.rng_for(ctx.seed, 'c01')
     try:
-        for k in range(160 if ctx.quick else 3000):
+        for k in range(ctx.n(160, 3000)):
             one_case(ctx, rng, k, model)
         vds_zgy(ctx)
     finally:
